@@ -258,6 +258,9 @@ let () =
              if v / 10000 <> 0 || (v / 1000) mod 10 <> 1 || v mod 1000 <> 0 then
                api_bad := Printf.sprintf "xstream_join(ES%d)-returned-rc=%d-state=%d-with-%d-unfinished-units" idx (v / 10000) ((v / 1000) mod 10) (v mod 1000) :: !api_bad
            end
+           else if op = Char.code 'z' then begin
+             if int_of_string c <> 0 then api_bad := Printf.sprintf "xstream_set_main_sched_basic(ES%d)-returned-%s" idx c :: !api_bad
+           end
            else if op = Char.code 'm' then begin
              (* ABT_thread_migrate: the generator only issues it when another running stream exists *)
              if int_of_string c <> 0 then api_bad := Printf.sprintf "ABT_thread_migrate(unit%d)-returned-%s" idx c :: !api_bad
@@ -371,7 +374,11 @@ let () =
            sched_stop ln aptr;
            (match Hashtbl.find_opt sched_unit (hex sp) with
             | Some up -> let u = unit_id ln up in apply ln desc (EFinish (nat_of u)) [u] [] []
-            | None -> ())
+            | None ->
+              (* a scheduler installed by ABT_xstream_set_main_sched runs on the ULT of the one it replaced: the
+                 actor of this record *)
+              if Hashtbl.mem unit_of_ptr aptr then begin
+                let u = unit_id ln aptr in apply ln desc (EFinish (nat_of u)) [u] [] [] end)
          | "QEMPTY", [qp; _; v] ->
            (match Hashtbl.find_opt queue_pool (hex qp) with
             | Some p -> apply ln desc (EEmptyLoad (nat_of p, hex v <> 0)) [] [p] [];
